@@ -220,11 +220,12 @@ fn host_matches_authority(host: &[u8], authority: &[u8]) -> bool {
     compare_no_case(host_stripped, auth_stripped)
 }
 
-/// Like `has_invalid_value_byte` but also rejects HTAB (0x09), which is
-/// allowed in regular header values (RFC 9110 §5.5) but not in pseudo-header
-/// values that end up in the H1 request-line (RFC 9112 §3).
+/// Like `has_invalid_value_byte` but also rejects HTAB (0x09) and SP (0x20),
+/// which are allowed in regular header values (RFC 9110 §5.5) but not in
+/// pseudo-header values that end up in the H1 request-line (RFC 9112 §3),
+/// where SP is the delimiter between method, target and version.
 fn has_invalid_pseudo_value_byte(value: &[u8]) -> bool {
-    value.iter().any(|&b| matches!(b, 0x00..=0x1F | 0x7F))
+    value.iter().any(|&b| matches!(b, 0x00..=0x20 | 0x7F))
 }
 
 /// Returns true if the value contains any byte forbidden in HTTP field values
